@@ -72,8 +72,8 @@ Fixpoint fwd_lines (o : opt) (ls : list bytes) (bs : list bof) (add_nl : bool) (
       | None => Fail []
       end
   | line :: ls' =>
-      (* read_line validates UTF-8 of each line it reads; read_until (-z) does not *)
-      if N.eqb (o_eol o) LF && negb (utf8_valid line) then Fail []
+      (* every line read is validated as UTF-8 (read_line; read_until + from_utf8 under -z) *)
+      if negb (utf8_valid line) then Fail []
       else
         let idx' := (idx + 1)%Z in
         let '(out, rest, a) := fwd_bounds o bs add_nl idx' line in
